@@ -356,26 +356,31 @@ func (g *gen) newNode(q nodeReq) string {
 		// (never both keys: nothing tells eino the inner type of such a node and Compile
 		// dereferences a nil pointer — a panic while building, outside this property)
 		mapLike := cur == tMap || (cur >= 0 && isIface(cur) && r.Prob(0.3))
-		if n.OutKey == "" && mapLike && r.Prob(0.3) {
+		if n.OutKey == "" && mapLike && r.Prob(0.5) {
 			n.InKey = upKey()
 		}
-		if g.s.State && r.Prob(0.35) {
+		// (handlers on keyed pass-through nodes are what Parallel.AddPassthrough users write: more of them)
+		pPre, pPost, pBadH := 0.35, 0.3, 0.15
+		if n.InKey != "" || n.OutKey != "" {
+			pPre, pPost, pBadH = 0.55, 0.5, 0.25
+		}
+		if g.s.State && r.Prob(pPre) {
 			n.Pre = tAny
 			if n.InKey != "" {
 				n.Pre = tMap
 			}
-			if r.Prob(0.15) {
+			if r.Prob(pBadH) {
 				n.Pre = pickType(r)
 			}
 			n.PreStream = r.Prob(0.3)
 			n.PreConv = convChoice(r, n.Pre)
 		}
-		if g.s.State && r.Prob(0.3) {
+		if g.s.State && r.Prob(pPost) {
 			n.Post = tAny
 			if n.OutKey != "" {
 				n.Post = tMap
 			}
-			if r.Prob(0.15) {
+			if r.Prob(pBadH) {
 				n.Post = pickType(r)
 			}
 			n.PostStream = r.Prob(0.3)
@@ -547,7 +552,7 @@ func genSpecOnce(r *mon.Rand) *Spec {
 	}
 	wf, chain := s.Front == feWorkflow, s.Front == feChain
 	s.GI = pickType(r)
-	s.State = r.Prob(0.45)
+	s.State = r.Prob(0.5)
 	s.DAG = s.Front == feGraph && r.Prob(0.3)
 	mapJoin := func() int { return mon.PickOne(r, []int{tMap, tMap, tAny}) }
 	curNode, cur := START, s.GI
